@@ -1185,30 +1185,30 @@ fn check_doc_error(e: &Error, cx: &DocCx) -> Result<(), String> {
         Krate::Validator => matches!(inner, Error::ValidatorError { .. }),
     };
     if !ok_variant {
-        return Err(format!("doc {di}: expected a {:?} validation error, got {}", k, short(e)));
+        return Err(format!("the error is not the validation error variant of the crate in use: doc {di}: expected {:?}, got {}", k, short(e)));
     }
     let wrapped = matches!(e, Error::WithSnippet { .. });
     let (by_key, by_rep) = truth_index(cx.dr, k);
     let (plain, plain_text) = observe(e, SnippetMode::Off);
     if plain.is_empty() {
-        return Err(format!("doc {di}: validation error renders no issue at all: {plain_text:?}"));
+        return Err(format!("the validation error renders no issue at all (plain mode): doc {di}: {plain_text:?}"));
     }
     // (2) the set of reported paths
     let mut seen = BTreeSet::new();
     let mut matched: Vec<(&Iss, &Truth, bool)> = vec![];
     for is in &plain {
         let Some((key, resolved)) = by_rep.get(&is.path) else {
-            return Err(format!("doc {di}: reported path `{}` is not a field path of the document (expected violations {:?})", is.path, cx.expected));
+            return Err(format!("a reported path is not a field path of the document at all: doc {di}: `{}` (expected violations {:?})", is.path, cx.expected));
         };
         if !cx.expected.contains(key) {
-            return Err(format!("doc {di}: path `{}` reported but its constraint holds (expected violations {:?})", is.path, cx.expected));
+            return Err(format!("a field is reported although its constraint holds on the plain value: doc {di}: `{}` (expected violations {:?})", is.path, cx.expected));
         }
         seen.insert(key.clone());
         matched.push((is, by_key[key], *resolved));
     }
     if &seen != cx.expected {
         let missing: Vec<_> = cx.expected.difference(&seen).collect();
-        return Err(format!("doc {di}: violated fields not reported: {missing:?}"));
+        return Err(format!("violated fields are missing from the validation error report: doc {di}: {missing:?}"));
     }
     // per issue: location of the use site, YAML spelling
     for (is, t, resolved) in &matched {
@@ -1216,20 +1216,20 @@ fn check_doc_error(e: &Error, cx: &DocCx) -> Result<(), String> {
         match is.r {
             None => {
                 if must {
-                    return Err(format!("doc {di}: no location for `{}` ({:?}; ground truth {})", is.path, t.via, t.ref_ok[0]));
+                    return Err(format!("no location is reported for a violated field that must be located: doc {di}: `{}` ({:?}; ground truth {})", is.path, t.via, t.ref_ok[0]));
                 }
             }
             Some(p) => {
                 if !t.ref_ok.contains(&p) {
-                    return Err(format!("doc {di}: use-site of `{}` reported at {p}, ground truth {:?} ({:?})", is.path, t.ref_ok, t.via));
+                    return Err(format!("the use-site location differs from the ground-truth position of the value: doc {di}: `{}` reported at {p}, ground truth {:?} ({:?})", is.path, t.ref_ok, t.via));
                 }
                 if !resolved {
-                    return Err(format!("doc {di}: located issue is named `{}` instead of the YAML spelling `{}`", is.path, t.yleaf.clone().unwrap_or_default()));
+                    return Err(format!("a located issue is not named by the YAML spelling of its field: doc {di}: `{}` instead of `{}`", is.path, t.yleaf.clone().unwrap_or_default()));
                 }
             }
         }
         if !plain_text.contains(&format!("validation error at {}:", is.path)) {
-            return Err(format!("doc {di}: plain rendering does not name `{}`: {plain_text:?}", is.path));
+            return Err(format!("the plain rendering does not contain the issue line of a reported path: doc {di}: `{}`: {plain_text:?}", is.path));
         }
     }
     // Error::location / Error::locations describe the first issue
@@ -1242,45 +1242,45 @@ fn check_doc_error(e: &Error, cx: &DocCx) -> Result<(), String> {
     let fmust = !(ft.amb || (k == Krate::Validator && ft.map_key));
     if let Some(p) = first.r {
         if e.location().and_then(lp) != Some(p) {
-            return Err(format!("doc {di}: Error::location() = {:?} but the first issue is at {p}", e.location().and_then(lp)));
+            return Err(format!("Error::location() differs from the location of the first rendered issue: doc {di}: {:?} vs {p}", e.location().and_then(lp)));
         }
         match e.locations() {
-            None => return Err(format!("doc {di}: Error::locations() is None although the first issue is located at {p}")),
+            None => return Err(format!("Error::locations() is None although the first issue has a location: doc {di}: {p}")),
             Some(l) => {
                 if lp(l.reference_location) != Some(p) {
-                    return Err(format!("doc {di}: Error::locations().reference = {:?}, first issue at {p}", lp(l.reference_location)));
+                    return Err(format!("Error::locations().reference_location differs from the first issue: doc {di}: {:?} vs {p}", lp(l.reference_location)));
                 }
                 match lp(l.defined_location) {
                     Some(d) if ft.def_ok.contains(&d) => {}
                     other => {
-                        return Err(format!("doc {di}: Error::locations().defined = {other:?} for `{}`, ground truth {:?} ({:?})", first.path, ft.def_ok, ft.via));
+                        return Err(format!("Error::locations().defined_location differs from the ground-truth definition site: doc {di}: {other:?} for `{}`, ground truth {:?} ({:?})", first.path, ft.def_ok, ft.via));
                     }
                 }
             }
         }
     } else if fmust {
-        return Err(format!("doc {di}: first issue `{}` has no location", first.path));
+        return Err(format!("the first issue has no location although it must be located: doc {di}: `{}`", first.path));
     }
     // snippet rendering: use site and definition site per issue
     let (snip, snip_text) = observe(e, SnippetMode::Auto);
     if wrapped && cx.c.opt != OptV::Crop0 {
         if snip.len() != plain.len() {
-            return Err(format!("doc {di}: snippet rendering shows {} issues, plain rendering {}", snip.len(), plain.len()));
+            return Err(format!("snippet rendering and plain rendering show different numbers of issues: doc {di}: {} vs {}", snip.len(), plain.len()));
         }
         for (s, (is, t, _)) in snip.iter().zip(matched.iter()) {
             if s.path != is.path || s.r != is.r {
-                return Err(format!("doc {di}: snippet rendering disagrees with plain rendering: `{}` at {:?} vs `{}` at {:?}", s.path, s.r, is.path, is.r));
+                return Err(format!("snippet rendering and plain rendering disagree about path or use site: doc {di}: `{}` at {:?} vs `{}` at {:?}", s.path, s.r, is.path, is.r));
             }
             let Some(r) = s.r else { continue };
             match s.d {
                 Some(d) => {
                     if !t.def_ok.contains(&d) || d == r {
-                        return Err(format!("doc {di}: definition site of `{}` reported at {d}, ground truth {:?} (use site {r}, {:?})", s.path, t.def_ok, t.via));
+                        return Err(format!("the definition site differs from the position of the anchored node: doc {di}: `{}` reported at {d}, ground truth {:?} (use site {r}, {:?})", s.path, t.def_ok, t.via));
                     }
                 }
                 None => {
                     if !t.def_ok.contains(&r) {
-                        return Err(format!("doc {di}: `{}` came through an anchor defined at {:?} but no definition site is reported (use site {r}, {:?})", s.path, t.def_ok, t.via));
+                        return Err(format!("no definition site is reported for a value that came through an anchor: doc {di}: `{}` defined at {:?} (use site {r}, {:?})", s.path, t.def_ok, t.via));
                     }
                 }
             }
@@ -1288,28 +1288,28 @@ fn check_doc_error(e: &Error, cx: &DocCx) -> Result<(), String> {
                 return Err(format!("no snippet is rendered for a located issue: doc {di} `{}` at {r}: {snip_text:?}", s.path));
             }
             if !snip_text.contains(&format!("`{}`", s.path)) {
-                return Err(format!("doc {di}: snippet rendering does not name `{}`", s.path));
+                return Err(format!("the snippet rendering does not name the path of an issue in backquotes: doc {di}: `{}`", s.path));
             }
             if cx.c.opt == OptV::Default && s.snip {
                 if let Some(src) = cx.lines.get(r.line as usize - 1) {
                     let src = src.trim_end();
                     if src.chars().count() <= 60 && !snip_text.contains(&format!("{} | {}", r.line, src)) {
-                        return Err(format!("doc {di}: snippet for `{}` does not show source line {} ({src:?}): {snip_text:?}", s.path, r.line));
+                        return Err(format!("the snippet of an issue does not show the source line of its use site: doc {di}: `{}` line {} ({src:?}): {snip_text:?}", s.path, r.line));
                     }
                 }
             }
         }
     } else if snip.len() != plain.len() {
-        return Err(format!("doc {di}: rendering with snippets shows {} issues, without {}", snip.len(), plain.len()));
+        return Err(format!("rendering with and without snippets shows different numbers of issues: doc {di}: {} vs {}", snip.len(), plain.len()));
     }
     // default formatter: Display and render() agree and name every issue
     let disp = e.to_string();
     if disp != e.render() {
-        return Err(format!("doc {di}: Display and render() differ"));
+        return Err(format!("Display and render() of the validation error produce different text: doc {di}"));
     }
     for (is, _, _) in &matched {
         if !disp.contains(&is.path) {
-            return Err(format!("doc {di}: default rendering does not name `{}`: {disp:?}", is.path));
+            return Err(format!("the default rendering does not name the path of a reported issue: doc {di}: `{}`: {disp:?}", is.path));
         }
     }
     Ok(())
